@@ -255,8 +255,12 @@ def one_recording(res, sp):
     budget = 110 if sp.get("apis") else 170
     if res.tier == "quick" and len(points) > budget:
         # every operation once with ENOSPC, the other combinations sampled
-        keep = [x for x in points if x[2] == P.ENOSPC and x[3] == 0]
-        rest = [x for x in points if not (x[2] == P.ENOSPC and x[3] == 0)]
+        # (and every combination on the few operations that create and publish drf_properties.h5: a channel whose
+        #  properties file is published unreadable is lost to every later session)
+        def is_props(x):
+            return "drf_properties" in P.show_op(b.ops[x[1] - 1][0])
+        keep = [x for x in points if (x[2] == P.ENOSPC and x[3] == 0) or is_props(x)]
+        rest = [x for x in points if x not in keep]
         res.rng.shuffle(rest)
         points = keep + rest[:budget - len(keep)]
     cases = []
